@@ -4,7 +4,7 @@ CONSTANTS
   N = 2
   MaxAccounts = 3
   MaxOps = 3
-INVARIANTS CounterLimit ThresholdMeaning OnlyUntouchedVerifies
+INVARIANTS CounterLimit ThresholdMeaning OnlyUntouchedVerifies OnlyUntouchedRecovers
 VIEW iview
 CONSTRAINT Bound
 ACTION_CONSTRAINT ExportEdge
